@@ -185,6 +185,11 @@ func (c *Crew) SetMachine(ctx context.Context, mid string, src *crew.SpecSource,
 	}
 
 	if state != nil {
+		if have {
+			// Replace the state of the existing machine (and
+			// not just report the replacement).
+			m.State = DefaultState(state)
+		}
 		c.change(mid).State = state
 	}
 
